@@ -757,7 +757,17 @@ class Interp:
             elif all(x.kind == "const" and x.shadow is None for x in r[1]):
                 yield s1, ("ok", const(tuple(x.d for x in r[1])))
             else:
-                yield s1, ("ok", V("tuple", r[1]))
+                items = r[1]
+                tv = V("tuple", items)
+                root = self.common_root(items) if all(self.is_concrete_like(x) for x in items) else False
+                if root not in (False, None):
+                    cells = None
+                    for x in items:
+                        if x.shadow is not None:
+                            cells = set(x.shadow) if cells is None else cells & set(x.shadow)
+                    tv.root = root
+                    tv.shadow = {c: (lambda c=c, items=items: tuple(self.concrete(x, c) for x in items)) for c in cells}
+                yield s1, ("ok", tv)
 
     def e_List(self, node, st):
         for s1, r in self.eval_list(node.elts, st):
@@ -1157,7 +1167,8 @@ class Interp:
         return env
 
     def call_closure(self, st: St, clo: Closure, args, kwargs):
-        if self.inline_depth > 6:
+        depth = st.env.get("$depth", 0)
+        if depth > 12:
             raise Unsupported("inlining depth exceeded (recursion?)")
         env = self.bind_params(st, clo.node, args, kwargs, clo.env)
         if env is None:
@@ -1178,6 +1189,7 @@ class Interp:
             return
         saved_env = st.env
         saved_yielded = st.yielded
+        env["$depth"] = depth + 1
         st.env = env
         st.yielded = None
         self.inline_depth += 1
